@@ -68,7 +68,7 @@ theorem tupleBody_ok {o : Options} {ext : Ext} (h0 : o.overwrites = []) {ts : Tr
     have hcn := hge i c hc hle
     have hgn := to_field_nullable h0 hg2 hcn
     have hu : isUnionDT g'.dataType = false := by
-      simpa [exclAny, nullAtEnum, dateLookalike, u64AboveI64, dataLessNewtype, unitStructAtValue] using hexg
+      simpa [exclAny, nullAtEnum, dateLookalike, u64AboveI64, dataLessNewtype] using hexg
     refine ⟨[], .null, interpNth_none ext _ _ _ items i hle, ?_⟩
     simp only [pickOne, hgn, Bool.not_true, Bool.false_eq_true, if_false]
     have := interpNull_of_nullable h0 hg2 hcn hu
